@@ -245,6 +245,8 @@ struct RawReq {
     body: Vec<u8>,
     cuts: Vec<usize>,
     http2: bool,
+    /// the body announces the declared Content-Length as its size (what an HTTP/1 server's body does)
+    declared_hint: bool,
 }
 
 impl RawReq {
@@ -270,7 +272,15 @@ impl RawReq {
             b = b.header(name, val);
         }
         let steps: Vec<Step> = crate::wiretap::split_frames(&self.body, &self.cuts);
-        let body = if self.body.is_empty() && self.cuts.is_empty() { s3s::Body::empty() } else { s3s::Body::http_body(crate::wiretap::FrameBody::new(steps, true)) };
+        // an HTTP/1 server announces the declared Content-Length as the body's size, not what will really arrive
+        let declared: Vec<u64> = self.headers.iter().filter(|(n, _)| n.eq_ignore_ascii_case("content-length")).filter_map(|(_, v)| std::str::from_utf8(v).ok()?.parse::<u64>().ok()).collect();
+        let body = if self.declared_hint && declared.len() == 1 && declared[0] != self.body.len() as u64 {
+            s3s::Body::http_body(crate::wiretap::FrameBody::declared(steps, declared[0]))
+        } else if self.body.is_empty() && self.cuts.is_empty() {
+            s3s::Body::empty()
+        } else {
+            s3s::Body::http_body(crate::wiretap::FrameBody::new(steps, true))
+        };
         b.body(body).map_err(|e| e.to_string())
     }
 }
@@ -477,7 +487,7 @@ fn gen_random_request(c: &mut Case<'_>) -> RawReq {
         headers.push(("content-length".into(), body.len().to_string().into_bytes()));
     }
     let cuts = if body.len() > 1 && c.t.chance(64) { vec![c.t.below(body.len())] } else { vec![] };
-    RawReq { method, uri, headers, body, cuts, http2 }
+    { let declared_hint = c.t.bool(); RawReq { method, uri, headers, body, cuts, http2, declared_hint } }
 }
 
 fn random_requests(c: &mut Case<'_>) -> CaseResult {
@@ -495,13 +505,35 @@ fn mutated_requests(c: &mut Case<'_>) -> CaseResult {
     let cfg = gen_cfg(c);
     let env = build_env(&cfg);
     let backend = set_backend(c, &env);
-    let mut base: Req = match c.t.below(8) {
+    let mut base: Req = match c.t.below(9) {
         0 | 7 => {
             let mut b = c10::gen_form(c, 400);
             let mut form = b.form.clone();
             crate::refimpl::postform::sign_form(&mut form, &b.policy.to_base64(), &b.signer);
             b.form = form;
             c10::form_request(&b.bucket, &b.form)
+        }
+        6 => {
+            // query-string authentication: a SigV4 presigned URL or a SigV2 request (header or presigned)
+            let bucket = crate::dto::gen_bucket_name(&mut c.t);
+            let key = crate::refimpl::pct::encode(&crate::dto::gen_key(&mut c.t, 12), true);
+            let method = (*c.t.pick(&["GET", "PUT", "DELETE", "HEAD"])).to_owned();
+            let mut r = Req { method, path: format!("/{bucket}/{key}"), query: None, headers: vec![("host".into(), "s3.example.test".into())], body: vec![] };
+            match c.t.below(3) {
+                0 => {
+                    let signer = Signer { access_key: AK1.into(), secret: SK1.into(), region: "us-east-1".into(), service: "s3".into(), date16: now_date16(-1) };
+                    signer.presign(&mut r, "3600", &[]);
+                }
+                1 => {
+                    r.headers.push(("date".into(), "Tue, 27 Mar 2007 19:36:42 +0000".into()));
+                    let _ = crate::refimpl::sigv2::sign_header(&mut r, AK1, SK1, None);
+                }
+                _ => {
+                    let exp = std::time::SystemTime::now().duration_since(std::time::UNIX_EPOCH).unwrap().as_secs() as i64 + 600;
+                    let _ = crate::refimpl::sigv2::presign(&mut r, AK1, SK1, exp, None);
+                }
+            }
+            r
         }
         1 => {
             let datas = c08::payload_chunks(c, 3, 64);
@@ -530,7 +562,7 @@ fn mutated_requests(c: &mut Case<'_>) -> CaseResult {
     for _ in 0..n_mut {
         let kind = *c.t.pick(&[
             "header-delete", "header-duplicate", "header-value-truncate", "header-value-extreme", "header-value-garbage", "query-delete", "query-duplicate", "query-value-extreme", "query-add-flag", "body-truncate", "body-byte", "body-splice",
-            "body-drop", "method-change", "path-segment", "content-length-lie", "add-multipart-type", "path-kind-change", "form-structure", "form-structure",
+            "body-drop", "method-change", "path-segment", "content-length-lie", "add-multipart-type", "path-kind-change", "form-structure", "form-structure", "auth-field-extreme", "auth-field-extreme",
         ]);
         classes.push(kind);
         match kind {
@@ -640,6 +672,46 @@ fn mutated_requests(c: &mut Case<'_>) -> CaseResult {
                     }
                 }
             }
+            "auth-field-extreme" => {
+                // the time and lifetime fields of every authentication style, at the edges of what their syntax allows
+                const DATES: &[&str] = &["99991231T235959Z", "99991230T000000Z", "00000101T000000Z", "00010101T000000Z", "99990101T000000Z", "20240230T000000Z", "20241301T000000Z", "20240101T240000Z", "20240101T000060Z", "19691231T235959Z"];
+                const SPANS: &[&str] = &["0", "1", "604800", "604801", "4294967295", "4294967296", "9223372036854775807", "9223372036854775808", "18446744073709551615", "-1", "253402300799", "253402300800", "99999999999999999999"];
+                const HTTP_DATES: &[&str] = &["Fri, 31 Dec 9999 23:59:59 GMT", "Mon, 01 Jan 0001 00:00:00 GMT", "Sat, 01 Jan 0000 00:00:00 GMT", "Thu, 01 Jan 1970 00:00:00 GMT", "Tue, 27 Mar 2007 19:36:42 +0000"];
+                let mut done = false;
+                let mut parts: Vec<String> = base.query.as_deref().unwrap_or("").split('&').filter(|s| !s.is_empty()).map(str::to_owned).collect();
+                for part in parts.iter_mut() {
+                    let k = part.split('=').next().unwrap_or("").to_owned();
+                    let v = match k.as_str() {
+                        "X-Amz-Date" => Some(*c.t.pick(DATES)),
+                        "X-Amz-Expires" | "Expires" => Some(*c.t.pick(SPANS)),
+                        _ => None,
+                    };
+                    if let (Some(v), true) = (v, c.t.chance(170)) {
+                        *part = format!("{k}={v}");
+                        done = true;
+                    }
+                }
+                base.query = if parts.is_empty() { None } else { Some(parts.join("&")) };
+                for (n, v) in base.headers.iter_mut() {
+                    let pick = match n.as_str() {
+                        "x-amz-date" => Some(if c.t.bool() { *c.t.pick(DATES) } else { *c.t.pick(HTTP_DATES) }),
+                        "date" | "expires" | "if-modified-since" | "if-unmodified-since" | "x-amz-copy-source-if-modified-since" | "x-amz-object-lock-retain-until-date" => Some(*c.t.pick(HTTP_DATES)),
+                        _ => None,
+                    };
+                    if let (Some(p), true) = (pick, c.t.chance(170)) {
+                        *v = p.to_owned();
+                        done = true;
+                    }
+                }
+                if !done {
+                    // nothing of the kind in this request: give it a presigned-style date and lifetime
+                    let add = format!("X-Amz-Algorithm=AWS4-HMAC-SHA256&X-Amz-Credential={AK1}%2F20240101%2Fus-east-1%2Fs3%2Faws4_request&X-Amz-Date={}&X-Amz-Expires={}&X-Amz-SignedHeaders=host&X-Amz-Signature={}", *c.t.pick(DATES), *c.t.pick(SPANS), "0".repeat(64));
+                    base.query = Some(match &base.query {
+                        Some(q) if !q.is_empty() => format!("{q}&{add}"),
+                        _ => add,
+                    });
+                }
+            }
             "body-drop" => base.body.clear(),
             "method-change" => base.method = (*c.t.pick(&["GET", "PUT", "POST", "DELETE", "HEAD", "PATCH"])).to_owned(),
             "path-segment" => {
@@ -656,7 +728,7 @@ fn mutated_requests(c: &mut Case<'_>) -> CaseResult {
                 };
             }
             "content-length-lie" => {
-                let v = (*c.t.pick(&["0", "1", "999999", "-5", "abc"])).to_owned();
+                let v = (*c.t.pick(&["0", "1", "999999", "-5", "abc", "18446744073709551613", "9223372036854775807", "9223372036854775808", "4294967296", "1099511627776"])).to_owned();
                 base.set_header("content-length", &v);
             }
             "add-multipart-type" => base.set_header("content-type", "multipart/form-data; boundary=XBOUNDARYX"),
@@ -664,7 +736,8 @@ fn mutated_requests(c: &mut Case<'_>) -> CaseResult {
         }
     }
     let cuts = if base.body.len() > 1 && c.t.chance(64) { vec![c.t.below(base.body.len())] } else { vec![] };
-    let raw = RawReq { method: base.method.clone(), uri: base.uri(), headers: base.headers.iter().map(|(n, v)| (n.clone(), v.clone().into_bytes())).collect(), body: base.body.clone(), cuts, http2: false };
+    let declared_hint = c.t.bool();
+    let raw = RawReq { method: base.method.clone(), uri: base.uri(), headers: base.headers.iter().map(|(n, v)| (n.clone(), v.clone().into_bytes())).collect(), body: base.body.clone(), cuts, http2: false, declared_hint };
     c.label(format!("backend:{backend}"));
     c.label("source:mutated");
     for k in &classes {
@@ -686,7 +759,7 @@ pub fn run(r: &mut Runner) {
     }
     r.probe("error-doc-non-xml-char", |c| {
         let env = build_env(&EnvCfg { host: HostCfg::None, keys: None, provider_denies: None, access: None, route: RouteMode::None });
-        let raw = RawReq { method: "GET".into(), uri: "/bucket/key?uploadId=u&max-parts=%00".into(), headers: vec![("host".into(), b"s3.example.test".to_vec())], body: vec![], cuts: vec![], http2: false };
+        let raw = RawReq { method: "GET".into(), uri: "/bucket/key?uploadId=u&max-parts=%00".into(), headers: vec![("host".into(), b"s3.example.test".to_vec())], body: vec![], cuts: vec![], http2: false, declared_hint: false };
         judge_total(c, &env, &raw, "probe")
     });
     r.probe("panic:parser.rs", |c| {
@@ -703,6 +776,7 @@ pub fn run(r: &mut Runner) {
             body: vec![],
             cuts: vec![],
             http2: false,
+            declared_hint: false,
         };
         judge_total(c, &env, &raw, "probe")
     });
@@ -724,14 +798,14 @@ pub fn run(r: &mut Runner) {
                     crate::refimpl::postform::sign_form(&mut form, &b.policy.to_base64(), &b.signer);
                     b.form = form;
                     let r = c10::form_request(&b.bucket, &b.form);
-                    Some(RawReq { method: r.method.clone(), uri: r.uri(), headers: r.headers.iter().map(|(n, v)| (n.clone(), v.clone().into_bytes())).collect(), body: r.body.clone(), cuts: vec![], http2: false })
+                    Some(RawReq { method: r.method.clone(), uri: r.uri(), headers: r.headers.iter().map(|(n, v)| (n.clone(), v.clone().into_bytes())).collect(), body: r.body.clone(), cuts: vec![], http2: false, declared_hint: false })
                 } else if i % 8 == 2 {
                     // a chunk-signed upload
                     let datas = c08::payload_chunks(c, 3, 64);
                     let u = c08::build_upload(c, datas, false);
                     let mut r = u.req.clone();
                     r.body = sigv4::encode_chunks(&u.chunks);
-                    Some(RawReq { method: r.method.clone(), uri: r.uri(), headers: r.headers.iter().map(|(n, v)| (n.clone(), v.clone().into_bytes())).collect(), body: r.body.clone(), cuts: vec![], http2: false })
+                    Some(RawReq { method: r.method.clone(), uri: r.uri(), headers: r.headers.iter().map(|(n, v)| (n.clone(), v.clone().into_bytes())).collect(), body: r.body.clone(), cuts: vec![], http2: false, declared_hint: false })
                 } else {
                     let op = OPS[c.t.below(OPS.len())];
                     c07::capture(c, op).map(|mut b| {
@@ -740,7 +814,7 @@ pub fn run(r: &mut Runner) {
                             let signed: Vec<String> = b.headers.iter().map(|(n, _)| n.clone()).filter(|n| n.starts_with("x-amz-")).collect();
                             signer.sign_header(&mut b, UNSIGNED, &signed);
                         }
-                        RawReq { method: b.method.clone(), uri: b.uri(), headers: b.headers.iter().map(|(n, v)| (n.clone(), v.clone().into_bytes())).collect(), body: b.body.clone(), cuts: vec![], http2: false }
+                        RawReq { method: b.method.clone(), uri: b.uri(), headers: b.headers.iter().map(|(n, v)| (n.clone(), v.clone().into_bytes())).collect(), body: b.body.clone(), cuts: vec![], http2: false, declared_hint: false }
                     })
                 }
             });
